@@ -21,7 +21,7 @@ VARIANTS = {
     # tsan pass, so those writes are invisible to the detector; at -O0 every one of them stays a libc call and goes through the --wrap'ped wrappers
     "sched0": {"sut": ["-O0", "-fsanitize=thread", "-fsanitize-coverage=trace-pc"], "rt": ["-O2"], "link": [], "defs": []},
     # the other choice a platform may make for plain char (ARM, PowerPC): the same simulators with -funsigned-char on every translation unit
-    "plainuc": {"sut": ["-O1", "-funsigned-char", "-fsanitize-coverage=trace-pc"], "rt": ["-O2", "-funsigned-char"], "link": [], "defs": []},
+    "plainuc": {"sut": ["-O2", "-funsigned-char", "-fsanitize-coverage=trace-pc"], "rt": ["-O2", "-funsigned-char"], "link": [], "defs": []},
     # reach measurement only (tools/coverage.py): gcov counters on the library code, never used by a registered check
     "cov": {"sut": ["-O0", "--coverage", "-fsanitize-coverage=trace-pc"], "rt": ["-O2"], "link": ["--coverage"], "defs": []},
     "schedcov": {"sut": ["-O0", "--coverage", "-fprofile-update=single", "-fsanitize=thread", "-fsanitize-coverage=trace-pc"], "rt": ["-O2"], "link": ["--coverage"], "defs": ["-DSIM_GCOV"]},
@@ -31,6 +31,8 @@ VARIANTS = {
 ENGINES = {
     "simA": {"sut": ["simA/core.cpp", "simA/ops_buf.cpp", "simA/ops_ss.cpp", "simA/ops_str_a.cpp", "simA/ops_str_b.cpp", "simA/run.cpp",
                      "simA/enum19.cpp", "simA/main.cpp"],
+             # compiled at -O2 without the step-clock instrumentation, whose callbacks act as optimisation barriers (simA/straight.cpp says why)
+             "sut_opt": ["simA/straight.cpp"],
              "rt": ["simrt/heap.cpp", "simrt/clock_fatal.cpp"],
              "link": ["-Wl,--wrap=abort", "-Wl,--wrap=fprintf", "-Wl,--wrap=malloc", "-Wl,--wrap=calloc", "-Wl,--wrap=realloc", "-Wl,--wrap=free", "-Wl,--wrap=strdup", "-Wl,--wrap=strndup", "-Wl,--wrap=aligned_alloc", "-Wl,--wrap=posix_memalign"], "bin": "simA"},
     "simB": {"sut": ["simB/ops.cpp", "simB/ops2.cpp", "simB/main.cpp"], "rt": [], "so": ["simB/rt.cpp", "simrt/heap.cpp", "simrt/clock_fatal.cpp"], "bin": "simB",
@@ -90,6 +92,10 @@ def main():
         for src in eng["sut"]:
             obj = os.path.join(out, src.replace("/", "_") + ".o")
             jobs.append(([CXX] + COMMON + var["sut"] + var["defs"] + inc + ["-c", os.path.join(VERIF, src), "-o", obj], obj))
+        for src in eng.get("sut_opt", []):
+            obj = os.path.join(out, src.replace("/", "_") + ".o")
+            flags = [f for f in var["sut"] if not f.startswith("-fsanitize-coverage") and not f.startswith("-O")] + ["-O2"]
+            jobs.append(([CXX] + COMMON + flags + var["defs"] + inc + ["-c", os.path.join(VERIF, src), "-o", obj], obj))
         for src in eng["rt"]:
             obj = os.path.join(out, src.replace("/", "_") + ".o")
             jobs.append(([CXX] + COMMON + var["rt"] + var["defs"] + inc + ["-c", os.path.join(VERIF, src), "-o", obj], obj))
